@@ -1432,6 +1432,13 @@ int main(int argc, char **argv)
       Outcome o = run_child([&]() { return seq_child(A, pre, B); }, T_RETRY, RSS_CAP_MB);
       printf("sequence replay end: %s site: %s\n%s\n%s\n", o.kind.c_str(), o.site.c_str(),
              Result::junesc(o.out).c_str(), o.report.c_str());
+      Result r;
+      r.count("evaluations");
+      std::string verdict = o.out.substr(0, o.out.find('\n'));
+      if (o.kind != "ok") r.violation("C10:replay:seq:" + o.kind + (o.func.size() ? "@" + o.func : ""), "{}");
+      else if (verdict.find("VERDICT same") != 0 && verdict.find("VERDICT accepted") != 0)
+        r.violation("C10:replay:seq:" + (verdict.size() > 8 ? verdict.substr(8, verdict.find(' ', 8) - 8) : std::string("?")), "{}");
+      if (args.out.size()) write_result(args.out, "C10", args.tier, r, false);
       return 0;
     }
     double lim = getenv("C10_REPLAY_CPU") ? atof(getenv("C10_REPLAY_CPU")) : T_RETRY;
